@@ -1118,7 +1118,7 @@ theorem noSpace_tail :
 
 /-- **the printed result does not end with a white-space character** (unquoted mode): the
 path, query and fragment hold none, the port is digits, a bracketed host ends with `]`, and
-a bare host ending with white space is followed by a slash (FX-C02-TRAILINGWS) -/
+a bare host ending with white space is followed by a slash (FX-C02-16f182c) -/
 theorem printed_last (hui : userinfoBrackets p.netloc = false)
     (hbr : bracketedHost p.netloc = true →
       bracketedHostOk (strOf (canonComps puny false sf p).host) = true) :
@@ -1214,7 +1214,7 @@ theorem printed_last (hui : userinfoBrackets p.netloc = false)
 
 /-- **the cleaning pass is the identity on the printed result** (unquoted mode): no control
 character, no surrounding white space (`printed_last`), escapes already upper-case, a
-protocol `PROTOCOL_RE` recognises (`scheme://` is always printed, FX-C02-EMPTYAUTH) -/
+protocol `PROTOCOL_RE` recognises (`scheme://` is always printed, FX-C02-f918741) -/
 theorem cleanUrl_printed_id (hup : UpFacts p) (hpath : PathIdem)
     (hS : (∀ c ∈ S, isAsciiAlpha c = true) ∧ S.length ≤ 64)
     (hpct : ∀ h0, p.hostname = some h0 → '%' ∉ h0)
